@@ -18,7 +18,7 @@ from .. import models
 from ..core import RunResult, adigest, mix
 from ..driver import pristine_library_state
 from .hist_common import SAME, TAU, clone, contain, draw_container, quiet, with_entropy
-from .hist_common import call_value as _call_value
+from .hist_common import call_value as _call_value, maybe_interrupted_call
 
 NAME = "B9"
 PROPERTY = "C09"
@@ -29,7 +29,7 @@ COMPONENTS = {"real": ["toqito.nonlocal_games.ExtendedNonlocalGame (unentangled_
 RULE = ("one run = one extended game, sometimes with a second game of the same shape used in between (referee dimension 1..3, 1..2 (rarely 3) answers and 1..3 questions per player, unequal counts, PSD predicate operators of norm <= 1, real and complex, "
         "not symmetric under player exchange, two thirds with referee dimension = Bob's answer count so that the see-saw runs) and 3..6 value-method calls in seeded order, several entropy values per game; "
         "non-trivial = a lower bound was returned, >=2 entropy values were used, and the game is not won with certainty by constant answers; distinct = distinct digest of (game, operations, entropy)")
-SHRINK_ORDER = ["config", "game", "ops"]
+SHRINK_ORDER = ["config", "game", "ops", "intr"]
 
 
 def _seesaw_shape_limit(e):
@@ -315,6 +315,8 @@ def run(cs, tier, run_index):
                 break
             res.probe("object_cloned")
         with with_entropy(ent):
+            maybe_interrupted_call(cs, res, op_fn(game, op))
+        with with_entropy(ent):
             out = call_value(op_fn(game, op), res, op["op"])
         names.append(op["op"])
         res.log.add("op", k, key, out[1] if out[0] == "ok" else out[:2])
@@ -345,6 +347,32 @@ def run(cs, tier, run_index):
             res.checks_workload += 1
             if abs(v - un_model) > 1e-6:
                 res.violate("C09.val.unentangled", got=v, expected=un_model, best_constant_answers=un_const, **meta)
+
+    # parameter sweep: the caller refills ITS arrays in place with the next game's numbers and builds a new object
+    # from the same array objects (own streams; the values of the next game are judged by the model of the next game)
+    sw = cs.s("sweep")
+    if sw.draw(2) == 0 and not res.violations and a_out**a_in * b_out**b_in <= 600:
+        try:
+            p_arr, v_arr = build()[1]
+            g1 = E.ExtendedNonlocalGame(p_arr, v_arr)
+            o1 = call_value(g1.unentangled_value, res, "unentangled(sweep step 0)")
+            prob2, pred2, meta2 = draw_game(cs.s("game:sweep"), tier, like=meta)
+            if np.shape(pred2) == np.shape(v_arr) and np.can_cast(pred2.dtype, v_arr.dtype, "same_kind") and np.shape(prob2) == np.shape(p_arr):
+                p_arr[...] = prob2
+                v_arr[...] = pred2
+                g2 = E.ExtendedNonlocalGame(p_arr, v_arr)
+                un2, _ = unentangled_model(np.asarray(p_arr), np.asarray(v_arr))
+                res.probe("sweep_in_place_refill")
+                for which, gg in (("new object", g2), ("old object", g1)):
+                    o2 = call_value(gg.unentangled_value, res, "unentangled(sweep step 1, %s)" % which)
+                    res.checks_sim += 1
+                    # the old object holds the same arrays (the constructor keeps references), so it now describes the new game too
+                    holds_same = gg is g2 or (getattr(gg, "prob_mat", None) is p_arr and getattr(gg, "pred_mat", None) is v_arr)
+                    if o2[0] == "ok" and holds_same and abs(o2[1] - un2) > 1e-6:
+                        res.violate("C09.val.unentangled", got=o2[1], expected=un2, history="the caller refilled its arrays in place with another game and asked the %s" % which, value_before_refill=o1[1] if o1[0] == "ok" else None, **meta)
+                        break
+        except MemoryError:
+            raise
 
     vals.setdefault("unentangled_model", []).append(un_model)
     # orderings
